@@ -1,6 +1,7 @@
 package bwrun
 
 import (
+	"bytes"
 	"context"
 	"fmt"
 	"os"
@@ -12,6 +13,7 @@ import (
 	"github.com/apparentlymart/go-versions/versions"
 	regaddr "github.com/hashicorp/terraform-registry-address"
 
+	slug "github.com/hashicorp/go-slug"
 	"github.com/hashicorp/go-slug/sourceaddrs"
 	"github.com/hashicorp/go-slug/sourcebundle"
 
@@ -77,6 +79,11 @@ func buildArena(sc *bw.Scenario) error {
 	os.WriteFile("/etc/shadow", []byte("OUT-shadow"), 0o644)
 	os.WriteFile("/cwd/keep", []byte("OUT-cwd"), 0o644)
 	os.WriteFile("/tmp/keep", []byte("OUT-tmp"), 0o644)
+	os.MkdirAll("/scratch/otherpack", 0o755)
+	os.WriteFile("/scratch/otherpack/.terraformignore", []byte("zz*\n!zzkeep\n.terraformignore\n"), 0o644)
+	for _, n := range []string{"other0.txt", "zzdrop", "zzkeep", "zzz"} {
+		os.WriteFile("/scratch/otherpack/"+n, bytes.Repeat([]byte(n), 700), 0o644)
+	}
 	return os.Chdir("/cwd")
 }
 
@@ -324,6 +331,25 @@ func runVariant(sc *bw.Scenario, book *simkit.TapeBook, vi int, w *world, pkgAdd
 			}
 		})
 	}
+	var otherNames []string
+	var otherErr error
+	if sc.OtherPack {
+		r.sched.Go("other-pack", func(tk *simkit.Task) {
+			w := simkit.NewSimWriter("other-pack", simkit.WriterPlan{}, log, r.sched)
+			var meta *slug.Meta
+			func() {
+				defer func() {
+					if x := recover(); x != nil {
+						otherErr = fmt.Errorf("panic: %v", x)
+					}
+				}()
+				meta, otherErr = slug.Pack("/scratch/otherpack", w, false)
+			}()
+			if meta != nil {
+				otherNames = meta.Files
+			}
+		})
+	}
 	r.inTasks = true
 	if err := r.sched.Run(); err != nil {
 		res.deadlock = true
@@ -340,6 +366,17 @@ func runVariant(sc *bw.Scenario, book *simkit.TapeBook, vi int, w *world, pkgAdd
 		res.deadlock = true
 		out.Violate("C14", "build-does-not-terminate", "step-cap", fmt.Sprintf("variant %d: more than %d simulator steps (peer calls, trace events, lock hand-overs) without the Add calls returning", vi, buildStepCap))
 		out.Violate("C19", "build-does-not-terminate", "step-cap", fmt.Sprintf("variant %d: more than %d simulator steps without the Add calls returning", vi, buildStepCap))
+	}
+	if sc.OtherPack && !res.deadlock {
+		// the concurrent Pack of another tree must come out as if it had run alone
+		want := "other0.txt,zzkeep,"
+		got := strings.Join(otherNames, ",") + ","
+		if otherErr != nil || got != want {
+			out.Violate("C03", "concurrent-consumer-influenced", "pack-beside-build", fmt.Sprintf("variant %d: a Pack of another tree (rules 'zz*','!zzkeep','.terraformignore') running beside the build shipped %q (err %v), alone it ships %q", vi, got, otherErr, want))
+			out.Violate("C16", "concurrent-consumer-influenced", "pack-beside-build", fmt.Sprintf("variant %d: a Pack of another tree running beside the build shipped %q (err %v), alone it ships %q", vi, got, otherErr, want))
+		} else {
+			out.Probe("pack-beside-build-unaffected")
+		}
 	}
 	if res.deadlock {
 		return res
